@@ -17,8 +17,7 @@ ASSUMPTIONS_COMMON = [
 HOOK_COMMITS = []
 NOT_CLAIMED = {}
 # properties whose check exists but is being adapted (not claimed until it passes on the merged tree)
-HOLD = {"C16": "check being adapted to a repair merged from another property (chrono -> ns conversion now yields NaT); not claimed until it passes",
-        "C17": "check being adapted to a repair merged from another property (chrono -> ns conversion now yields NaT); not claimed until it passes"}
+HOLD = {}
 
 # per-property configuration: tools/propcfg/Cxx.py defines CFG (dict) and optionally
 #   compare(cmp, impl_cells, model_cells) -> None | reason   for comparators the driver does not know
